@@ -414,8 +414,194 @@ def index_key_shapes_detail(m, f):
     return out
 
 
-KEY_SUFFIX_TOLERATED = {
-    "undo_write_entry:suffix-none": "rollback removes/restores non-unique index entries under encode(cols) only, so a rolled-back INSERT leaves "
-                                    "its entry behind; the stale entry points at a row key that no longer exists and index scans drop it — no wrong "
-                                    "result demonstrated (findings/c10_rollback_leak_not_observable.rs)",
-}
+KEY_SUFFIX_TOLERATED = {}
+
+
+def _deps(f, local, limit=600):
+    """backward dependence closure of a local over all of its definitions: data (operands of rvalues, arguments of calls) and,
+    for multi-definition locals such as a lowered `a && b && c`, control (operands of the switches lying between the nearest
+    common dominator of the definitions and those definitions)"""
+    seen, st = set(), [local]
+
+    def ops_of(rv):
+        out = []
+
+        def walk(x):
+            if isinstance(x, list):
+                if len(x) == 2 and x and x[0] in ("c", "m") and isinstance(x[1], list) and x[1] and isinstance(x[1][0], int):
+                    out.append(x[1][0])
+                    return
+                for y in x:
+                    walk(y)
+        walk(rv)
+        return out
+    while st and len(seen) < limit:
+        l = st.pop()
+        if l in seen:
+            continue
+        seen.add(l)
+        ds_ = f.defs().get(l, [])
+        if len(ds_) >= 2:
+            dbs = [d[1] for d in ds_]
+            doms = [set(f.dominators().get(b, ())) | {b} for b in dbs]
+            common_ = set.intersection(*doms) if doms else set()
+            ncd = None
+            for b in common_:
+                if ncd is None or f.dominates(ncd, b):
+                    ncd = b
+            if ncd is not None:
+                fwd = f.reachable([ncd])
+                for b in fwd:
+                    t_ = f.blocks[b]["t"]
+                    if t_[0] != "switch":
+                        continue
+                    rb = f.reachable([b])
+                    if any(x in rb for x in dbs) and not all(f.dominates(x, b) for x in dbs):
+                        q_ = operand_place(t_[1])
+                        if q_ is not None:
+                            st.append(q_[0])
+        for d in ds_:
+            if d[0] == "call":
+                for a in d[2].args:
+                    pl = operand_place(a)
+                    if pl is not None:
+                        st.append(pl[0])
+            else:
+                rv = d[3]
+                if rv[0] in ("ref", "ptr"):
+                    st.append(rv[2][0])
+                elif rv[0] == "disc":
+                    st.append(rv[1][0])
+                else:
+                    st += ops_of(rv)
+    return seen
+
+
+def fastpath_guard_depends(ctx, rule, entries=("update", "delete")):
+    """A region of a DML entry that rewrites a row and returns Ok without reaching any index-key site is a fast path; it is only
+    sound when its guard excludes statements that touch an indexed column, i.e. the guard's value must depend on the collection of
+    secondary indexes the slow path iterates.  One obligation per outermost such region."""
+    m = ctx.m
+    n = 0
+    for e in entries:
+        f = m.fn(ENTRIES[e])
+        sites = index_key_shapes_detail(m, f)
+        site_bbs = {c.bb for c, t, k in index_key_shapes(m, f)}
+        if not site_bbs:
+            continue
+        S = set()
+        loops = f.loops()
+        items = list(loops.items()) if isinstance(loops, dict) else list(loops)
+        for c, t, k in sites:
+            for hdr, body in items:
+                if c.bb not in body:
+                    continue
+                for x in f.calls:
+                    if x.name.endswith("IntoIterator>::into_iter") and x.target is not None and (x.target == hdr or f.dominates(x.bb, hdr)) and x.args:
+                        r = _buf_root(f, x.args[0])
+                        if r is not None and "(std::string::String, std::vec::Vec<usize>" in f.locals[r[0]]:
+                            S.add(r[0])
+        flush = [c.bb for c in f.calls if c.name.endswith("flush_wal_if_autocommit") or c.name.endswith("add_write_entry_with_undo")]
+        oks = [bb for bb, b in enumerate(f.blocks) for s in b["s"]
+               if s[0] == "=" and s[1][0] == 0 and not s[1][1] and s[2][0] == "agg" and s[2][3] == "Ok"]
+        regions = []
+        for bb, b in enumerate(f.blocks):
+            t = b["t"]
+            if t[0] != "switch" or t[2] != "bool":
+                continue
+            for tgt in [x[1] for x in t[3]] + [t[4]]:
+                region = {x for x in f.reachable([tgt]) if f.dominates(tgt, x)}
+                if any(x in region for x in flush) and any(x in region for x in oks) and not (site_bbs & region):
+                    regions.append((bb, tgt, region))
+        outer = [r for r in regions if not any(r[0] in o[2] for o in regions if o is not r)]
+        for k, (bb, tgt, region) in enumerate(sorted(outer, key=lambda r: r[0])):
+            n += 1
+            pl = operand_place(f.blocks[bb]["t"][1])
+            deps = _deps(f, pl[0]) if pl else set()
+            ok = bool(S) and bool(deps & S)
+            ctx.ob(rule, "%s#%d" % (e, k), ok, "the fast path's guard depends on the secondary-index collection" if ok else
+                   "a path rewrites the row and returns Ok without any index maintenance, and its guard (L%s) does not depend on which indexed "
+                   "columns the statement assigns: the row stays under its old index key" % f.blocks[bb].get("l"), "%s:%s" % (f.file, f.blocks[bb].get("l")))
+    return n
+
+
+def _data_fields(f, local, limit=200):
+    """field names read anywhere in the backward *data* dependence closure of a local (no control dependence)"""
+    seen, st, fields = set(), [local], set()
+
+    def walk(x):
+        if isinstance(x, list):
+            if len(x) == 2 and x and x[0] in ("c", "m") and isinstance(x[1], list) and x[1] and isinstance(x[1][0], int):
+                st.append(x[1][0])
+                fields.update(place_fields(x[1]))
+                return
+            for y in x:
+                walk(y)
+    while st and len(seen) < limit:
+        l = st.pop()
+        if l in seen:
+            continue
+        seen.add(l)
+        for d in f.defs().get(l, []):
+            if d[0] == "call":
+                for a in d[2].args:
+                    walk(a)
+            else:
+                rv = d[3]
+                if rv[0] in ("ref", "ptr"):
+                    st.append(rv[2][0])
+                    fields.update(place_fields(rv[2]))
+                else:
+                    walk(rv)
+    return fields
+
+
+def index_value_is_row_key(ctx, rule):
+    """The value stored with an index entry is the row key (INSERT stores row_id.to_be_bytes()).  At every index insert site the
+    value argument must not be computed from a column value (a payload of OwnedValue): a primary-key value is not a row key."""
+    m = ctx.m
+    fns = [ENTRIES["insert"], ENTRIES["update"], "database::transaction::<impl database::database::Database>::undo_write_entry"]
+    n = 0
+    for fid in fns:
+        f = m.fn(fid)
+        k = 0
+        for c, t, shape in index_key_shapes(m, f, methods=("insert",)):
+            if len(c.args) < 3:
+                continue
+            n += 1
+            pl = operand_place(c.args[2])
+            flds = _data_fields(f, pl[0]) if pl else set()
+            bad = sorted(x for x in flds if "OwnedValue::" in x)
+            ctx.ob(rule, "%s#%d" % (fid.rsplit("::", 1)[-1], k), not bad, "index entry value does not come from a column value" if not bad else
+                   "the value stored with the index entry is computed from a column value (%s), not from the row key: the entry points at the wrong "
+                   "row whenever the primary key differs from the row id" % bad[0], c.loc())
+            k += 1
+    ctx.floor(rule + ".index_insert_sites", n, 6)
+
+
+def undo_removes_new_keys(ctx, rule):
+    """Undoing an UPDATE restores the old index entries; the entries of the values being rolled back have to go too: in
+    undo_write_entry every index insert is paired with an index delete on the same tree inside the same per-index loop."""
+    m = ctx.m
+    f = m.fn("database::transaction::<impl database::database::Database>::undo_write_entry")
+    shapes = index_key_shapes(m, f)
+    ins = [c for c, t, s in shapes if t == "insert"]
+    dels = [c for c, t, s in shapes if t == "delete"]
+    loops = f.loops()
+    items = list(loops.items()) if isinstance(loops, dict) else list(loops)
+
+    def recv(c):
+        r = _buf_root(f, c.args[0]) if c.args else None
+        return r
+    k = 0
+    for i in sorted(ins, key=lambda c: c.line):
+        li = [(h, b) for h, b in items if i.bb in b]
+        ok = False
+        if li:
+            h, body = min(li, key=lambda x: len(x[1]))
+            ok = any(d.bb in body and recv(d) == recv(i) for d in dels)
+        ctx.ob(rule, "undo_write_entry#%d" % k, ok, "restoring the old entry is paired with removing the rolled-back one" if ok else
+               "the old index entry is re-inserted but the entry of the value being rolled back is never removed: after ROLLBACK the row is "
+               "still found under the rolled-back key and a rolled-back UNIQUE value stays reserved", i.loc())
+        k += 1
+    ctx.floor(rule + ".undo_index_inserts", k, 2)
